@@ -48,20 +48,24 @@ PATHS = dict(cbmc_flags=['--paths', 'lifo'])
 SM = r'^_ZN18QXmppSaslDigestMd516serializeMessage'
 PM = r'^_ZN18QXmppSaslDigestMd512parseMessage'
 def PA(n, **kw): return I('dig_parse_any%d' % n, 'h_dig_parse_any', (n, 15), unwind=10, loop_bounds={PM: (n + 1) // 2 + 1}, bound='every byte string of exactly %d bytes that is a list of directives per RFC 2831 7.1; %s' % (n, EXCL), **kw)
-def PS(name, shape, lv, what, it=1, hint=1, **kw): return I(name, 'h_dig_parse_shape', (shape, lv, hint), unwind=10, loop_bounds={PM: it + 1}, bound='message %s with %d arbitrary bytes per value piece (token characters for unquoted values, any qdtext except " and backslash for quoted ones)' % (what, lv), **kw)
+PMF = 'F__ZN18QXmppSaslDigestMd512parseMessageERK10QByteArray'   # loop .0 = closing-quote scan (one character or quoted pair per trip), loop .1 = one directive per trip
+def PS(name, shape, lv, what, it=1, hint=3, scan=None, **kw):
+    scan = scan if scan is not None else 2 * lv + 4
+    return I(name, 'h_dig_parse_shape', (shape, lv, hint), unwind=10, unwindset=['%s.0:%d' % (PMF, scan), '%s.1:%d' % (PMF, it + 1)], bound='message %s with %d arbitrary bytes per value piece (token characters for unquoted values, any qdtext except " and backslash for quoted ones)' % (what, lv), **kw)
 CLS = ['arbitrary non-separator byte', '"', 'backslash', ',', 'SP', '=']
-def RC(name, n, classes, ref=0, **kw):
+def RC(name, n, classes, mode=0, **kw):   # mode 0: real serializer -> real parser (with the verified at() hint); 3: serializer lemma only (text read by the reference parser)
     code = sum(c * 6 ** i for i, c in enumerate(classes))
-    return I(name, 'h_dig_roundtrip_cls', (n, code, ref), unwind=10, loop_bounds={PM: 3, SM: 24}, bound='map {k: v}, v = %d bytes of the classes (%s)%s' % (n, ', '.join(CLS[c] for c in classes), '; the text is also read by the reference parser' if ref else ''), **dict(PATHS, **kw))
+    return I(name, 'h_dig_roundtrip_cls', (n, code, mode), unwind=10, unwindset=['%s.0:%d' % (PMF, 2 * n + 3), '%s.1:3' % PMF], loop_bounds={SM: 24},
+             bound='map {k: v}, v = %d bytes of the classes (%s); %s' % (n, ', '.join(CLS[c] for c in classes), 'serializeMessage only: the text must mean {k: v} to the reference parser' if mode == 3 else 'parse(serialize(m)) == m'), **dict(PATHS, **kw))
 def RT(name, ne, l1, l2, excl=1, **kw): return I(name, 'h_dig_roundtrip', (ne, l1, l2, excl), unwind=10, loop_bounds={PM: ne + l1 + l2 + 2, SM: 24}, bound='map of %d entries, names = 1 arbitrary token character each, values of exactly %d / %d arbitrary bytes%s' % (ne, l1, l2, ' not ending in a backslash (class E1)' if excl else ''), **kw)
 GROUPS.append(
     dict(name='dig_parse', harness='dig_parse.cpp', tus=[], models=['c06_pre.c', 'dig_pre.c', 'qt_core.c', 'qt_list.c', 'qt_dom.c', 'c06_models.c', 'dig_map.c'],
          loop_bounds={r'^_ZN13QConcatenableI10QByteArrayE8appendTo': 48, r'^_ZN3Msg3litEPKc': 26},
          instances=[
              PA(2, tiers=('thorough',), timeout_s=600),
-             PS('dig_parse_s_tok', 0, 2, 'ab=V', tiers=(), **PATHS),   # TEMP: being re-tuned against the repaired parser
-             PS('dig_parse_s_quoted', 1, 2, 'ab="V"', tiers=(), **PATHS),   # TEMP: being re-tuned against the repaired parser
-             PS('dig_parse_s_quoted_sep', 1, 1, 'ab="V" where V is ANY qdtext byte incl. "=" "," SP (no structure hint)', hint=0, it=2, tiers=('thorough',), timeout_s=900, **PATHS),
+             PS('dig_parse_s_tok', 0, 2, 'ab=V', scan=3, **PATHS),
+             PS('dig_parse_s_quoted', 1, 2, 'ab="V"', scan=4, **PATHS),
+             PS('dig_parse_s_quoted_sep', 1, 1, 'ab="V" where V is ANY qdtext byte incl. "=" "," SP (no indexOf hint)', hint=2, it=2, tiers=('thorough',), timeout_s=900, **PATHS),
              PS('dig_parse_s_escq', 2, 1, 'a="V\\"W" (escaped quote inside)', tiers=('thorough',), timeout_s=450, **PATHS),
              PS('dig_parse_s_two', 3, 2, 'a=V,c=W', it=2, tiers=('thorough',), timeout_s=450, **PATHS),
              PS('dig_parse_s_qthen', 16, 1, 'a="V",c=W', it=2, tiers=('thorough',), timeout_s=900, **PATHS),
@@ -72,13 +76,15 @@ GROUPS.append(
              PS('dig_parse_s_escbs', 8, 1, 'a="V\\\\W" (escaped backslash inside)', tiers=('thorough',), timeout_s=450, **PATHS),
              PS('dig_parse_s_lws', 9, 1, '" a =\"V\",<HT>c=W" (LWS before names and before "=")', it=2, tiers=('thorough',), timeout_s=900, **PATHS),
              PS('dig_parse_s_dup', 10, 1, 'a=V,a=W (repeated directive, last wins)', it=2, tiers=('thorough',), timeout_s=450, **PATHS),
-             # demonstrations of the excluded classes: each FAILS on the unchanged tree (see FINDINGS in the report); tiers=() = never run by the driver (DIG_DEMO=1 ./check C06 thorough --only <name> runs one)
+             # E1 (closing quote preceded by an escaped backslash) was defect F1, fixed in /repo: dig_f_e1_trailing_backslash / dig_f_rtc_x_bs are regressions now.
+             # E2-E4: demonstrations of deviations that remain; tiers=() = never run by the driver (DIG_DEMO=1 ./check C06 thorough --only <name> runs one)
              PS('dig_f_e1_trailing_backslash', 7, 1, 'a="V\\\\" (quoted value ending in an escaped backslash; defect fixed in /repo, regression)', tiers=('thorough',), **PATHS),
              PS('dig_f_e2_quoted_pair', 12, 1, 'a="\\V" (quoted-pair of an ordinary character)', tiers=FT, **PATHS),
              PS('dig_f_e3_lws_after', 13, 1, 'a=V ,c= W (LWS after a value / after "=")', it=2, tiers=FT, **PATHS),
              PS('dig_f_e4_null_element', 14, 1, 'a=V,,c=W (null list element)', it=2, tiers=FT, **PATHS),
-             RC('dig_rtc_quote_x', 2, (1, 0), ref=1, tiers=('thorough',), timeout_s=900), RC('dig_rtc_x_quote', 2, (0, 1), tiers=('thorough',), timeout_s=600), RC('dig_rtc_bs_x', 2, (2, 0), ref=1, tiers=('thorough',), timeout_s=900), RC('dig_rtc_x', 1, (0,), tiers=('thorough',), timeout_s=600),
-             RC('dig_f_rtc_x_bs', 2, (0, 2), tiers=('thorough',)),
+             RC('dig_rtc_x', 1, (0,), tiers=('thorough',), timeout_s=600), RC('dig_rtc_quote_x', 2, (1, 0), tiers=('thorough',), timeout_s=600), RC('dig_rtc_x_quote', 2, (0, 1), tiers=('thorough',), timeout_s=600), RC('dig_rtc_bs_x', 2, (2, 0), tiers=('thorough',), timeout_s=600),
+             RC('dig_f_rtc_x_bs', 2, (0, 2), tiers=('thorough',), timeout_s=600),   # value ending in a backslash: defect F1, fixed in /repo (regression)
+             RC('dig_ser_quote_x', 2, (1, 0), mode=3, tiers=('thorough',), timeout_s=600), RC('dig_ser_bs_x', 2, (2, 0), mode=3, tiers=('thorough',), timeout_s=600), RC('dig_ser_x_bs', 2, (0, 2), mode=3, tiers=('thorough',), timeout_s=600),
              I('dig_f_ser_unquoted', 'h_dig_ser_quoted', (2,), unwind=10, loop_bounds={SM: 24}, tiers=('quick', 'thorough'), known_finding='digest_unquoted_directives', bound='username value of 2 arbitrary token characters'),
          ]))
 def MG(p, name, data, tag, step, demo=0, **kw):
@@ -117,11 +123,11 @@ ASSUMPTIONS = [
     'DIGEST-MD5 client and managers (groups dig_resp, dig_mgr): QXmppSaslDigestMd5::parseMessage is CUT to "returns the directive map of the challenge" (an arbitrary map over nonce, realm, qop, charset, algorithm, cipher, rspauth and a foreign name, built by the harness); serializeMessage is CUT to a recorder (the response is compared as a directive map). The lemma group dig_parse checks the real codec against the RFC 2831 7.1 grammar on the stated shapes, outside the classes E1-E4',
     'MD5 = recording oracle as for SCRAM; toHex is computed digit by digit on the 4 symbolic digest bytes',
     'the cnonce is injected through QXmppSaslDigestMd5::setNonce (as the test-suite does); QXmppUtils::generateRandomBytes + toBase64 in generateNonce are not exercised',
-    'group dig_parse: QMap<QByteArray,QByteArray> = append-only log model (dig_map.c): last entry with an equal key wins, operator[] only as assignment target, iteration only over maps filled in ascending key order; cbmc runs in path mode (--paths lifo) for the shape instances; indexOf uses the verified structure hint of c06_models.c (hence hinted quoted values contain no "=", "," or quote)',
+    'group dig_parse: QMap<QByteArray,QByteArray> = append-only log model (dig_map.c): last entry with an equal key wins, operator[] only as assignment target, iteration only over maps filled in ascending key order; cbmc runs in path mode (--paths lifo) for the shape and round-trip instances; indexOf uses the verified structure hint of c06_models.c (hence hinted quoted values contain no "=", "," or quote); QByteArray::at is a class-level model with a verified hint (dig_map.c): on the one message under test, at() at a position the harness registered as an arbitrary content byte asserts that the byte is neither a quote nor a backslash and returns the constant "x" (parseMessage compares at() results only with these two characters), so the closing-quote scan has a concrete trip count; data copies (mid/replace) keep the real bytes. A serializer change that moves a quote or backslash onto a registered position makes the dig_rtc_* instance inconclusive (model assertion), never a pass; the serializer is checked without this hint by dig_ser_*',
 ]
 OUTSIDE = [
     'DIGEST-MD5 parseMessage on ARBITRARY byte strings longer than 2 bytes: the real parser alone on 3 symbolic bytes costs 50 s / 1.9 GB, with the reference parser of dig_parse.cpp the SAT instance exceeds 5.5 GB (dig_parse_any3 not registered); covered instead by fixed shapes with symbolic value bytes',
-    'DIGEST-MD5 serialize -> parse round trip on values of 2 or more ARBITRARY bytes and on maps of 2 entries (no verdict in 450 s); registered: one arbitrary byte next to each special character, class by class (dig_rtc_*)',
+    'DIGEST-MD5 serialize -> parse round trip on values of 2 or more ARBITRARY bytes and on maps of 2 entries (no verdict in 450 s); registered: one arbitrary byte next to each special character, class by class (dig_rtc_*: real serializer -> real parser; dig_ser_*: real serializer -> reference parser)',
     'DIGEST-MD5 messages of the classes E1-E4 (parseMessage deviates from RFC 2831 7.1 there: demonstrations dig_f_e1..e4, not run), the always-quoted form of username/realm/nonce/cnonce (dig_f_ser_unquoted), rspauth carried by <success/> (dig_*_f_success_wrong_rspauth)',
     'DIGEST-MD5: authzid, several realm directives, stale / maxbuf / cipher handling, qop other than auth, non-ASCII user names (charset), nonce-count > 1 (no subsequent authentication), QXmppSaslServerDigestMd5',
     'X-FACEBOOK-PLATFORM (QUrlQuery is not modelled), X-MESSENGER-OAUTH2 (one line: base64-decoded token); SCRAM iteration counts at the int boundary are already inside scram_exchange (toInt of ordinary text = arbitrary (value, ok), so 2147483647, 0, -1 and "not an int" are all covered abstractly); the digit grammar (leading "+", 2147483648 out of range) is Qt\'s',
